@@ -15,7 +15,7 @@ import shutil
 import sys
 
 rnd = sys.argv[1]
-off = {"R3": 4, "R4": 6}[rnd]
+off = {"R3": 4, "R4": 6, "R5": 8}[rnd]
 V = os.path.dirname(os.path.dirname(os.path.abspath(__file__)))
 detected = json.load(open("/tmp/seeded/detected.json"))
 needs = json.load(open("/tmp/seeded/%s_needs.json" % rnd.lower()))
@@ -29,7 +29,7 @@ for q in glob.glob("/tmp/seeded/queue*.sh"):
         if m:
             cmds["%s-%s" % (m.group(1), m.group(2))] = (m.group(3), m.group(4))
 trials = {}
-for f in ("/tmp/seeded/final3.log", "/tmp/seeded/final4.log"):
+for f in ("/tmp/seeded/final3.log", "/tmp/seeded/final4.log", "/tmp/seeded/final5a.log", "/tmp/seeded/final5b.log"):
     if os.path.exists(f):
         for line in open(f, errors="replace"):
             m = re.match(r"TRIAL (R\d-C\d\d-\d) ", line)
